@@ -558,7 +558,15 @@ pub fn run_batch<P: Property>(p: &P, env: &Env, known: &KnownFile, threads: usiz
         }
         if let Some(s) = &o.sample {
             if samples.len() < 6 {
-                samples.push(s.clone());
+                // a sample is there to show what a case looks like, not to archive it: very large
+                // scenarios (hundreds of vertices, thousands of edges or gates) are cut
+                let txt = s.to_string();
+                if txt.len() > 6000 {
+                    let cut: String = txt.chars().take(3000).collect();
+                    samples.push(json!({"truncated_sample": true, "original_length": txt.len(), "prefix": cut}));
+                } else {
+                    samples.push(s.clone());
+                }
             }
         }
     }
